@@ -101,14 +101,17 @@ CAUGHT.update({"C03o": "NOT DECIDED: runs of one Pipeline object overlapping in 
 CAUGHT.update({"C03s": "NOT DECIDED: C03 demands that unequal by_position lengths are rejected, not that no element is evaluated before the rejection (DESIGN 9.396)",
                "C01s": "C01 quick (`Rename[a>b] ;; ctx=['addend']`: spec raises at node 1, code returned)", "C07r": "C07 quick (`param-missing:SliceMulDef.factor:default`, after TraceStream slice3 was added)",
                "C10r": "C10 quick (`reproducible:staged-run-metadata`)", "C10s": "C10 quick (`observational:hostile-payload:hash`, VRaise)", "C18r": "C18 quick (`container-growth:fresh:atexit.callbacks`, way fresh-traced-file)"})
+CAUGHT.update({"C13u": "NOT DECIDED: a launch with attempt 0 cannot be produced by the runtime (the CLI rejects attempts below 1 and the pipeline_start schema requires run_space_attempt >= 1), so it is outside 'traces the runtime produced' (DESIGN 9.397)"})
+STRENGTHENED |= {"C09u", "C14u", "C16t", "C16u", "C18u"}
 STRENGTHENED |= {"C03r", "C04s", "C05s", "C06r", "C07r", "C09r", "C09s", "C10r", "C10s", "C14s", "C15r", "C18r"}
 STRENGTHENED |= {"C01p", "C02p", "C03p", "C03q", "C04p", "C05p", "C05q", "C07p", "C08p", "C10p", "C10q", "C11p", "C11q", "C12p", "C13p", "C14p", "C15p", "C16p", "C16q", "C17p", "C18p"}
 TRY_LOGS = ["/var/tmp/runlogs/try10a.log", "/var/tmp/runlogs/try10b.log", "/var/tmp/runlogs/try10c.log",
-            "/var/tmp/runlogs/try11a.log", "/var/tmp/runlogs/try11b.log", "/var/tmp/runlogs/try11c.log", "/var/tmp/runlogs/try11d.log"]
+            "/var/tmp/runlogs/try11a.log", "/var/tmp/runlogs/try11b.log", "/var/tmp/runlogs/try11c.log", "/var/tmp/runlogs/try11d.log",
+            "/var/tmp/runlogs/try12a.log", "/var/tmp/runlogs/try12b.log", "/var/tmp/runlogs/try12c.log", "/var/tmp/runlogs/try12d.log"]
 for _lf in TRY_LOGS:
     if os.path.exists(_lf):
         for _l in open(_lf):
-            _m = re.match(r"(C\d\d[pqrs]) CAUGHT by (C\d\d):\s+witness: (.*)", _l)
+            _m = re.match(r"(C\d\d[pqrstu]) CAUGHT by (C\d\d):\s+witness: (.*)", _l)
             if _m and _m.group(1) not in CAUGHT:
                 CAUGHT[_m.group(1)] = f"{_m.group(2)} quick (`{_m.group(3).strip()[:80]}`)"
 for pid in sorted(os.listdir(os.path.join(HERE, "seeded"))):
@@ -120,7 +123,7 @@ for pid in sorted(os.listdir(os.path.join(HERE, "seeded"))):
     meta = {
         "property": pid[:3],
         "check": pid[:3],
-        "round": {"": 1, "b": 2, "c": 3, "d": 4, "e": 4, "f": 5, "g": 5, "h": 6, "i": 6, "j": 7, "k": 7, "l": 8, "m": 8, "n": 9, "o": 9, "p": 10, "q": 10, "r": 11, "s": 11}[pid[3:]],
+        "round": {"": 1, "b": 2, "c": 3, "d": 4, "e": 4, "f": 5, "g": 5, "h": 6, "i": 6, "j": 7, "k": 7, "l": 8, "m": 8, "n": 9, "o": 9, "p": 10, "q": 10, "r": 11, "s": 11, "t": 12, "u": 12}[pid[3:]],
         "origin": "fresh sub-agent given only the property text and a scratch worktree" + (" (plus the note that registry growth is already known)" if pid == "C18" else ""),
         "summary": first[:300],
         "needs_to_manifest": NEEDS.get(pid) or needs_from_notes(notes),
